@@ -604,12 +604,12 @@ func checkLiquibase(p *migrate.Plan, text string, want []string) (res downResult
 // ---------------------------------------------------------------------------------------------
 // oracle 3: shape of the reverse of a single change (necessary conditions, no engine)
 
-// clauses counts the top-level, comma separated clauses of an ALTER TABLE statement (after the table
-// name). Quotes and parentheses are respected.
-func clauses(stmt string) (n int, ok bool) {
+// clauses returns the heads ("ADD COLUMN", "DROP INDEX", "COMMENT", …) of the top-level, comma separated
+// clauses of an ALTER TABLE statement (after the table name). Quotes and parentheses are respected.
+func clauses(stmt string) (heads []string, ok bool) {
 	f := strings.Fields(stmt)
 	if len(f) < 3 || !strings.EqualFold(f[0], "ALTER") || !strings.EqualFold(f[1], "TABLE") {
-		return 0, false
+		return nil, false
 	}
 	// skip "ALTER TABLE <name>": the name is the third field (quoted names of the generators hold no blanks)
 	rest := strings.TrimSpace(stmt)
@@ -624,9 +624,10 @@ func clauses(stmt string) (n int, ok bool) {
 	}
 	rest = strings.TrimSpace(rest)
 	if rest == "" {
-		return 0, true
+		return nil, true
 	}
-	depth, cur := 0, 0
+	var parts []string
+	depth, start := 0, 0
 	for i := 0; i < len(rest); i++ {
 		switch c := rest[i]; c {
 		case '(':
@@ -635,7 +636,7 @@ func clauses(stmt string) (n int, ok bool) {
 			depth--
 		case '\'', '"', '`':
 			for i++; i < len(rest); i++ {
-				if rest[i] == '\\' && c == '\'' {
+				if rest[i] == '\\' && c != '`' {
 					i++
 					continue
 				}
@@ -647,24 +648,29 @@ func clauses(stmt string) (n int, ok bool) {
 					break
 				}
 			}
-			cur++
 		case ',':
 			if depth == 0 {
-				if cur > 0 {
-					n++
-				}
-				cur = 0
-				continue
+				parts = append(parts, rest[start:i])
+				start = i + 1
 			}
-		case ' ', '\t', '\n':
-		default:
-			cur++
 		}
 	}
-	if cur > 0 {
-		n++
+	parts = append(parts, rest[start:])
+	for _, p := range parts {
+		w := strings.Fields(strings.ToUpper(p))
+		if len(w) == 0 {
+			continue
+		}
+		h := w[0]
+		switch h {
+		case "ADD", "DROP", "MODIFY", "CHANGE", "RENAME", "ALTER":
+			if len(w) > 1 && !strings.ContainsAny(w[1], "`\"'(") {
+				h += " " + w[1]
+			}
+		}
+		heads = append(heads, h)
 	}
-	return n, true
+	return heads, true
 }
 
 var inverseVerb = map[string][]string{
@@ -707,9 +713,29 @@ func shapeIssues(o planObs) (out []shapeIssue) {
 				}
 			}
 		}
-		if nc, ok := clauses(cmd); ok && len(revs) == 1 {
-			if nr, ok2 := clauses(revs[0]); ok2 && nr < nc {
-				out = append(out, shapeIssue{"clauses|" + stmtKind(cmd), cmd, revs[0], fmt.Sprintf("ALTER TABLE with %d clauses is reversed by an ALTER TABLE with %d", nc, nr)})
+		if ch, ok := clauses(cmd); ok && len(revs) == 1 {
+			if rh, ok2 := clauses(revs[0]); ok2 && len(rh) < len(ch) {
+				// name the clauses that have no counterpart: the heads of the command that are their own
+				// inverse (table attributes, MODIFY/CHANGE/ALTER/RENAME …) and do not occur in the reverse;
+				// when there is none, all heads of the command
+				inRev := map[string]bool{}
+				for _, h := range rh {
+					inRev[h] = true
+				}
+				lost, all := map[string]bool{}, map[string]bool{}
+				for _, h := range ch {
+					all[h] = true
+					if !strings.HasPrefix(h, "ADD") && !strings.HasPrefix(h, "DROP") && !inRev[h] {
+						lost[h] = true
+					}
+				}
+				if len(lost) == 0 {
+					lost = all
+				}
+				for _, h := range sortedSet(lost) {
+					out = append(out, shapeIssue{"alter-table-reverse-lacks-clauses|" + h, cmd, revs[0],
+						fmt.Sprintf("ALTER TABLE with %d clauses %v is reversed by an ALTER TABLE with %d %v: nothing undoes %s", len(ch), ch, len(rh), rh, h)})
+				}
 			}
 		}
 	}
